@@ -2363,25 +2363,17 @@ class LazyStackedTensorDict(TensorDictBase):
                 # we can return a stack
                 for (i, _idx), mask in _zip_strict(converted_idx.items(), mask_unbind):
                     if mask.any():
-                        if (
-                            mask.all()
-                            and self.tensordicts[i].ndim == 0
-                            and all(
-                                item is None
-                                for loc, item in enumerate(_idx)
-                                if loc != split_index["mask_loc"]
-                            )
-                        ):
-                            # a 0-dim member cannot be indexed with a 0-dim mask
-                            # together with other items: the only other valid
-                            # items are None, each of which adds a singleton dim
-                            td_i = self.tensordicts[i]
-                            for _ in range(len(_idx) - 1):
-                                td_i = td_i.unsqueeze(0)
-                            result.append(td_i)
-                        else:
+                        # mask is a 0-dim True: indexing the member with it would only
+                        # add a singleton dim at cat_dim, to be squeezed right away.
+                        # We index with the other items instead (a member that is
+                        # itself a lazy stack, or that has no batch dim, cannot be
+                        # indexed with a 0-dim mask).
+                        mask_loc = split_index["mask_loc"]
+                        _idx = _idx[:mask_loc] + _idx[mask_loc + 1 :]
+                        if _idx:
                             result.append(self.tensordicts[i][_idx])
-                            result[-1] = result[-1].squeeze(cat_dim)
+                        else:
+                            result.append(self.tensordicts[i])
                 if not result:
                     # no member is selected: `batch_size` is the batch size of the
                     # (absent) members, ie the indexed batch size without the stack dim
